@@ -5,6 +5,9 @@ import (
 	"fmt"
 	"os"
 	"sort"
+	"strings"
+
+	"golang.org/x/tools/go/packages"
 
 	"github.com/go-critic/go-critic/linter"
 )
@@ -219,12 +222,18 @@ func (w *Worker) computeRefCLI(info *linter.CheckerInfo, params map[string]any, 
 			}
 		}
 	}()
-	h, err := w.hooks.New(wl.Args(), ref.Fset, ref.Sizes)
-	if err != nil {
-		e.Err = err.Error()
-		return
+	fe := w.runFrontEnd(wl.Args(), ref, []*packages.Package{cp.ViewPermuted([]int{file}, declSeed)}, nil, nil)
+	switch {
+	case fe.Fatal != "":
+		e.Err = fe.Fatal
+		if n := len(w.sink.records); n > 0 && strings.TrimRight(w.sink.records[n-1].Text, "\n") == fe.Fatal {
+			w.sink.records = w.sink.records[:n-1]
+		}
+	case fe.Err != "":
+		e.Err = fe.Err
+	case fe.LoaderTypeErr != "":
+		e.Err = "loader type " + fe.LoaderTypeErr
 	}
-	w.hooks.CheckPackage(h, cp.ViewPermuted([]int{file}, declSeed))
 	return
 }
 
